@@ -28,6 +28,8 @@ type Step struct {
 	ByKey   bool       `json:"by_key,omitempty"`
 	Pad     int        `json:"key_pad,omitempty"`
 	Prop    *vkit.Prop `json:"prop,omitempty"`
+	// Par: this step is sent concurrently with the previous one (used by C03; C01/C02 run sequentially).
+	Par bool `json:"par,omitempty"`
 }
 
 // Case is a history.
@@ -147,6 +149,7 @@ type GenOpts struct {
 	MinSteps   int
 	MaxSteps   int
 	NoDupBatch bool
+	ParP       int // per cent of single steps that run concurrently with their predecessor
 }
 
 // GenPad draws how many extra bytes follow the public key of a by-key request (mostly none): the
@@ -169,6 +172,7 @@ func GenStep(t *rapid.T, o GenOpts) Step {
 			Kind:    "attest",
 			ViaGRPC: rapid.IntRange(0, 9).Draw(t, "grpc") >= 7,
 			Entries: []Entry{genEntry(t, rapid.IntRange(0, NKeys-1).Draw(t, "key"), o.AllowHigh)},
+			Par:     o.ParP > 0 && rapid.IntRange(0, 99).Draw(t, "par") < o.ParP,
 		}
 	case k < o.AttestW+o.BatchW:
 		m := rapid.IntRange(2, 12).Draw(t, "batch_n")
@@ -194,6 +198,7 @@ func GenStep(t *rapid.T, o GenOpts) Step {
 			Prop:    GenProp(t, o.AllowHigh),
 		}
 		st.Pad = GenPad(t, st.ByKey)
+		st.Par = o.ParP > 0 && rapid.IntRange(0, 99).Draw(t, "par") < o.ParP
 
 		return st
 	default:
